@@ -100,6 +100,47 @@ fn triple(a: i64, b: i64, c: i64) -> Result<(), Fail> {
                 "an operator relates {p:?} and {q:?}"
             );
         }
+        // an individual compares exactly as its result does - also where results are only partially ordered
+        for (p, q) in [(sx, sy), (ex, ey), (sx, ey), (ex, sy)] {
+            let (ip, iq) = (EcIndividual::new(1u8, p), EcIndividual::new(2u8, q));
+            ensure!(
+                ip.partial_cmp(&iq) == p.partial_cmp(&q) && (ip < iq, ip <= iq, ip > iq, ip >= iq) == (p < q, p <= q, p > q, p >= q),
+                "EcIndividual/partially-ordered-results",
+                "individuals with results {p:?} / {q:?}: partial_cmp {:?}, operators (<,<=,>,>=) {:?}; the results themselves: {:?}, {:?}",
+                ip.partial_cmp(&iq),
+                (ip < iq, ip <= iq, ip > iq, ip >= iq),
+                p.partial_cmp(&q),
+                (p < q, p <= q, p > q, p >= q)
+            );
+        }
+        // ... and with float results, where NaN is incomparable
+        for (fx, fy) in [(x as f64, y as f64), (f64::NAN, y as f64), (x as f64, f64::NAN), (f64::NAN, f64::NAN)] {
+            let (p, q) = (Score(fx), Score(fy));
+            let (ip, iq) = (EcIndividual::new(1u8, p), EcIndividual::new(2u8, q));
+            ensure!(
+                ip.partial_cmp(&iq) == p.partial_cmp(&q) && (ip < iq, ip <= iq, ip > iq, ip >= iq) == (p < q, p <= q, p > q, p >= q),
+                "EcIndividual/partially-ordered-results",
+                "individuals with float scores {fx} / {fy}: partial_cmp {:?}, operators {:?}; the scores themselves: {:?}, {:?}",
+                ip.partial_cmp(&iq),
+                (ip < iq, ip <= iq, ip > iq, ip >= iq),
+                p.partial_cmp(&q),
+                (p < q, p <= q, p > q, p >= q)
+            );
+            let (p, q) = (ErrRes(fx), ErrRes(fy));
+            let (ip, iq) = (EcIndividual::new(1u8, p), EcIndividual::new(2u8, q));
+            ensure!(
+                ip.partial_cmp(&iq) == p.partial_cmp(&q) && (ip < iq, ip <= iq, ip > iq, ip >= iq) == (p < q, p <= q, p > q, p >= q),
+                "EcIndividual/partially-ordered-results",
+                "individuals with float errors {fx} / {fy}: partial_cmp {:?}, operators {:?}; the errors themselves: {:?}, {:?}",
+                ip.partial_cmp(&iq),
+                (ip < iq, ip <= iq, ip > iq, ip >= iq),
+                p.partial_cmp(&q),
+                (p < q, p <= q, p > q, p >= q)
+            );
+            // Error reverses the order of its values, NaN stays incomparable
+            ensure!(p.partial_cmp(&q) == fy.partial_cmp(&fx), "Error/float-order", "Error({fx}).partial_cmp(Error({fy})) = {:?}", p.partial_cmp(&q));
+            ensure!(Score(fx).partial_cmp(&Score(fy)) == fx.partial_cmp(&fy), "Score/float-order", "Score({fx}).partial_cmp(Score({fy})) = {:?}", Score(fx).partial_cmp(&Score(fy)));
+        }
     }
     // transitivity / antisymmetry on the triple, both polarities
     let s = [Score(a), Score(b), Score(c)];
